@@ -532,18 +532,27 @@ func genCase(r *rng) *polCase {
 }
 
 // all single-rule REP placements with up to maxRemote remote nodes: local at any
-// position or absent, every answer vector x netmap-maintenance flags x
-// replication outcome vector, REP 1..2, REGULAR and LOCK
+// position or absent, every per-node behaviour vector, REP 1..2, REGULAR and LOCK.
+// Per-node behaviours: flagged as under maintenance in the netmap (never HEADed: one
+// answer is enough) | HEAD answers has / maintenance status / error | HEAD answers
+// not found (the node becomes a replication candidate) x EVERY replication outcome
+// (stores, maintenance status, other failure status, transport failure, unreachable).
+// Nodes that the current code never sends a replica to get a rotating outcome, so a
+// change that does send to them meets storing and refusing nodes alike.
 func enumCases(maxRemote int, emit func(*polCase)) {
 	const local = 9
+	const nOutcomes = 5
+	type beh struct{ ans, flag, rep int } // rep < 0: rotating
+	behs := []beh{{0, 0, -1}, {2, 0, -1}, {3, 0, -1}, {0, 1, -1}}
+	for o := 0; o < nOutcomes; o++ {
+		behs = append(behs, beh{1, 0, o})
+	}
+	rot := 0
 	for nr := 1; nr <= maxRemote; nr++ {
 		remotes := []int{1, 2, 3, 4}[:nr]
-		pow := func(b, e int) int {
-			x := 1
-			for i := 0; i < e; i++ {
-				x *= b
-			}
-			return x
+		nvec := 1
+		for i := 0; i < nr; i++ {
+			nvec *= len(behs)
 		}
 		for pos := -1; pos <= nr; pos++ {
 			var list []int
@@ -556,38 +565,63 @@ func enumCases(maxRemote int, emit func(*polCase)) {
 			if pos == nr {
 				list = append(list, local)
 			}
-			for av := 0; av < pow(4, nr); av++ {
-				for mv := 0; mv < pow(2, nr); mv++ {
-					for rv := 0; rv < pow(2, nr); rv++ {
-						for rep := 1; rep <= 2; rep++ {
-							for _, ty := range []int{0, 2} {
-								c := &polCase{Src: "enum", Local: local, InNM: true, Readable: true, Ty: ty, Shards: 1}
-								a, m, rr := av, mv, rv
-								skip := false
-								for _, n := range remotes {
-									c.Ans = append(c.Ans, [2]int{n, a % 4})
-									if m%2 == 1 {
-										c.MFlag = append(c.MFlag, n)
-										if a%4 != 0 {
-											skip = true // flagged nodes are never HEADed: one answer is enough
-										}
-									}
-									if rr%2 == 1 {
-										c.Rep = append(c.Rep, n)
-									}
-									a /= 4
-									m /= 2
-									rr /= 2
-								}
-								if skip {
-									continue
-								}
-								c.Net = netT{K: 2, NN: [][]int{append([]int{}, list...)}, Rep: []int{rep}, Ecr: [][2]int{}}
-								emit(c)
+			for bv := 0; bv < nvec; bv++ {
+				for rep := 1; rep <= 2; rep++ {
+					for _, ty := range []int{0, 2} {
+						c := &polCase{Src: "enum", Local: local, InNM: true, Readable: true, Ty: ty, Shards: 1}
+						v := bv
+						for _, n := range remotes {
+							b := behs[v%len(behs)]
+							v /= len(behs)
+							c.Ans = append(c.Ans, [2]int{n, b.ans})
+							if b.flag == 1 {
+								c.MFlag = append(c.MFlag, n)
+							}
+							o := b.rep
+							if o < 0 {
+								o = rot % nOutcomes
+								rot++
+							}
+							if o != 3 {
+								c.Rep = append(c.Rep, [2]int{n, o})
 							}
 						}
+						c.Net = netT{K: 2, NN: [][]int{append([]int{}, list...)}, Rep: []int{rep}, Ecr: [][2]int{}}
+						emit(c)
 					}
 				}
+			}
+		}
+	}
+}
+
+// all EC parts of one 2+1 rule over [two remote nodes + the local node at any position]: every part index x
+// per-node behaviour (HEAD has / maintenance / error | HEAD not found x every replication outcome)
+func enumECCases(emit func(*polCase)) {
+	const local = 9
+	type beh struct{ ans, rep int }
+	behs := []beh{{0, 0}, {2, 3}, {3, 0}}
+	for o := 0; o < 5; o++ {
+		behs = append(behs, beh{1, o})
+	}
+	for pos := 0; pos <= 2; pos++ {
+		list := []int{1, 2}
+		list = append(list[:pos], append([]int{local}, list[pos:]...)...)
+		for part := 0; part < 3; part++ {
+			for bv := 0; bv < len(behs)*len(behs); bv++ {
+				c := &polCase{Src: "enum-ec", Local: local, InNM: true, Readable: true, Shards: 1, Ec: &[2]int{0, part}}
+				for i, n := range []int{1, 2} {
+					b := behs[bv%len(behs)]
+					if i == 1 {
+						b = behs[bv/len(behs)]
+					}
+					c.Ans = append(c.Ans, [2]int{n, b.ans})
+					if b.rep != 3 {
+						c.Rep = append(c.Rep, [2]int{n, b.rep})
+					}
+				}
+				c.Net = netT{K: 2, NN: [][]int{append([]int{}, list...)}, Rep: []int{}, Ecr: [][2]int{{2, 1}}}
+				emit(c)
 			}
 		}
 	}
@@ -598,7 +632,7 @@ func (c *polCase) normalize() {
 		c.MFlag = []int{}
 	}
 	if c.Rep == nil {
-		c.Rep = []int{}
+		c.Rep = [][2]int{}
 	}
 	if c.Ans == nil {
 		c.Ans = [][2]int{}
@@ -621,6 +655,12 @@ func policerMain() {
 		Net: netT{K: 2, NN: [][]int{{1, 2, 3}}, Rep: []int{1}, Ecr: [][2]int{}}})
 	emit(&polCase{Src: "seed", Local: 3, InNM: true, Readable: true, Ans: [][2]int{{1, 1}}, MFlag: []int{2}, Shards: 1,
 		Net: netT{K: 2, NN: [][]int{{1, 2}}, Rep: []int{1}, Ecr: [][2]int{}}})
+	// a candidate (HEAD: not found) that answers the replication request with the maintenance status, as the only
+	// other node of an EC rule / of a REP rule the local node is outside of: nothing is stored, nothing may be dropped
+	emit(&polCase{Src: "seed", Local: 3, InNM: true, Readable: true, Ans: [][2]int{{1, 1}}, Rep: [][2]int{{1, 1}}, Shards: 1,
+		Ec: &[2]int{0, 0}, Net: netT{K: 2, NN: [][]int{{1, 3, 2}}, Rep: []int{}, Ecr: [][2]int{{2, 1}}}})
+	emit(&polCase{Src: "seed", Local: 3, InNM: true, Readable: true, Ans: [][2]int{{1, 1}, {2, 1}}, Rep: [][2]int{{1, 1}, {2, 2}}, Shards: 1,
+		Net: netT{K: 2, NN: [][]int{{1, 2}}, Rep: []int{1}, Ecr: [][2]int{}}})
 	nRandom, maxRemote := 2600, 2
 	if thorough() {
 		nRandom, maxRemote = 15000, 3
@@ -629,6 +669,7 @@ func policerMain() {
 		nRandom = v
 	}
 	enumCases(maxRemote, emit)
+	enumECCases(emit)
 	r := newRng()
 	for i := 0; i < nRandom; i++ {
 		emit(genCase(r))
